@@ -16,6 +16,8 @@ VARIABLE i
 Judge(r) ==
   LET e == ParseNameH(r.s, HfsBuild) IN
   IF r.err = "panic" THEN "panic"
+  \* a name that is valid but for a non-canonical psk numeral (psk03) may also be refused - with a pattern error
+  ELSE IF e.ok /\ e.lenient /\ ~r.ok THEN (IF SubSeq(r.err, 1, 8) = "Pattern(" THEN "ok" ELSE "not a pattern error")
   ELSE IF e.ok # r.ok THEN (IF e.ok THEN "rejected a valid name" ELSE "accepted an invalid name")
   ELSE IF ~r.ok THEN (IF SubSeq(r.err, 1, 8) = "Pattern(" THEN "ok" ELSE "not a pattern error")
   ELSE IF ~r.verbatim THEN "name not preserved verbatim"
